@@ -108,7 +108,11 @@ def caller_source():
         ret = f" -> {vt}" if vt else ""
         decos = ["@external"] + (["@payable"] if value else [])
         expr = f"{callkw} C(self.t).f_{ty}_{m}(x{kw})"
-        L.extend(decos + [f"def {name}(x: uint256){ret}:", f"    {'return ' if vt else ''}{expr}", ""])
+        if name.startswith("s_"):
+            # STATEMENT position: the returned value is dropped; the call must fail closed exactly as in expression position
+            L.extend(decos + [f"def {name}(x: uint256):", f"    {expr}", ""])
+        else:
+            L.extend(decos + [f"def {name}(x: uint256){ret}:", f"    {'return ' if vt else ''}{expr}", ""])
         fns.append((name, ty, m, skip, dflt, value, gas))
 
     for ty in TYPES:
@@ -120,6 +124,14 @@ def caller_source():
             for skip in ((False,) if m == "u" else (False, True)):
                 for dflt in ((False, True) if has_d else (False,)):
                     emit(f"c_{ty}_{m}_{int(skip)}{int(dflt)}", ty, m, skip, dflt)
+    # the same extcalls in statement position (result discarded), every return type that has one
+    for ty in TYPES:
+        if ty == "none":
+            continue
+        has_d = TYPES[ty][4] is not None
+        for skip in (False, True):
+            for dflt in ((False, True) if has_d else (False,)):
+                emit(f"s_{ty}_n_{int(skip)}{int(dflt)}", ty, "n", skip, dflt)
     for ty in ("u256", "none", "bool"):
         emit(f"c_{ty}_p_val", ty, "p", False, False, value=True)
         emit(f"c_{ty}_n_gas", ty, "n", False, False, gas=True)
